@@ -329,6 +329,24 @@ Proof.
   - fold (remove_key k t). rewrite !sum_sizes_cons. specialize (IH Hn' H). lia.
 Qed.
 
+Lemma upd_blob_blobs k f kc : k_blobs (upd_blob k f kc) = update k f (k_blobs kc).
+Proof. reflexivity. Qed.
+Lemma upd_blob_cap k f kc : k_cap (upd_blob k f kc) = k_cap kc.
+Proof. reflexivity. Qed.
+Lemma add_blob_blobs k sz d kc : k_blobs (add_blob k sz d kc) = k_blobs kc ++ [(k, mkblob sz false false [] (k_next kc))].
+Proof. reflexivity. Qed.
+Lemma add_blob_cap k sz d kc : k_cap (add_blob k sz d kc) = k_cap kc.
+Proof. reflexivity. Qed.
+Global Hint Rewrite upd_blob_blobs upd_blob_cap add_blob_blobs add_blob_cap : core_simp.
+
+Arguments s_size : simpl never.
+Arguments c_fits : simpl never.
+Arguments sum_sizes : simpl never.
+Arguments upd_blob : simpl never.
+Arguments add_blob : simpl never.
+Arguments drop_blob : simpl never.
+Arguments evictableb : simpl never.
+
 (* ================================================================ the refinement invariant *)
 Definition lt_last (s : sstate) (a b : key) : Prop := last_of s a < last_of s b.
 
@@ -367,26 +385,447 @@ Lemma inv_queue_eq c s : Inv c s -> c_queue c = evict_order s.
 Proof. intros H. apply queue_is_evict_order; apply H. Qed.
 
 (* ---------------------------------------------------------------- frame: nothing LRU-relevant changes *)
-Lemma last_of_tick kc' s k : last_of (mks kc' (s_last s) (N.succ (s_clock s))) k = last_of s k.
-Proof. reflexivity. Qed.
-
-Lemma queue_ok_frame s q kc' :
-  same_index (s_core s) kc' -> queue_ok s q -> queue_ok (mks kc' (s_last s) (N.succ (s_clock s))) q.
+Lemma queue_ok_frame kc l clk q kc' :
+  same_index kc kc' -> queue_ok (mks kc l clk) q -> queue_ok (mks kc' l clk) q.
 Proof.
   intros Hs [Hn Hm Hso Ho]. constructor; auto.
-  - intros k. cbn. rewrite (same_index_evictable _ _ _ Hs). apply Hm.
-  - cbn. intros k Hk. specialize (Ho k Hk). unfold last_of in *. cbn. lia.
+  intros k. cbn. rewrite (same_index_evictable _ _ _ Hs). apply Hm.
 Qed.
 
-Lemma inv_frame c s kc' :
-  Inv c s -> same_index (s_core s) kc' ->
-  Inv (mkc kc' (c_size c) (c_queue c)) (mks kc' (s_last s) (N.succ (s_clock s))).
+Lemma inv_frame kc size q l clk kc' :
+  Inv (mkc kc size q) (mks kc l clk) -> same_index kc kc' -> Inv (mkc kc' size q) (mks kc' l clk).
 Proof.
-  intros [Hc Hk Hz Hcap H64 Hq] Hs. constructor; cbn.
+  intros [Hc Hk Hz Hcap H64 Hq] Hs. cbn in *. constructor; cbn.
   - reflexivity.
   - now rewrite (same_index_keys _ _ Hs).
   - now rewrite (same_index_size _ _ Hs).
   - rewrite (same_index_size _ _ Hs). destruct Hs as [-> _]. exact Hcap.
   - destruct Hs as [-> _]. exact H64.
-  - now apply queue_ok_frame.
+  - now apply (queue_ok_frame kc).
+Qed.
+
+Lemma inv_tick c kc l clk : Inv c (mks kc l clk) -> Inv c (mks kc l (N.succ clk)).
+Proof.
+  intros [Hc Hk Hz Hcap H64 [Hn Hm Hso Ho]]. constructor; auto. constructor; auto.
+  intros k Hk'. specialize (Ho k Hk'). cbn in *. unfold last_of in *. cbn in *. lia.
+Qed.
+
+Lemma inv_canon c s : Inv c s -> c = mkc (s_core s) (c_size c) (c_queue c) /\ s = mks (s_core s) (s_last s) (s_clock s).
+Proof. intros H. pose proof (inv_core _ _ H) as E. destruct c as [kc sz q], s as [kc' l clk]. cbn in *. subst. auto. Qed.
+
+(* ---------------------------------------------------------------- removing a blob *)
+Lemma drop_blob_blobs k kc b : assoc k (k_blobs kc) = Some b -> k_blobs (drop_blob k kc) = remove_key k (k_blobs kc).
+Proof. intros H. unfold drop_blob. now rewrite H. Qed.
+
+Lemma drop_blob_cap k kc : k_cap (drop_blob k kc) = k_cap kc.
+Proof. unfold drop_blob. now destruct (assoc k (k_blobs kc)). Qed.
+
+Lemma drop_blob_absent k kc : assoc k (k_blobs kc) = None -> drop_blob k kc = kc.
+Proof. intros H. unfold drop_blob. now rewrite H. Qed.
+
+Lemma evictableb_drop k kc b k' :
+  assoc k (k_blobs kc) = Some b ->
+  evictableb (drop_blob k kc) k' = if k' =? k then false else evictableb kc k'.
+Proof.
+  intros H. unfold evictableb. rewrite (drop_blob_blobs _ _ _ H).
+  destruct (N.eqb_spec k' k).
+  - subst. now rewrite assoc_remove_eq.
+  - now rewrite assoc_remove_neq.
+Qed.
+
+Lemma s_size_drop k kc b :
+  NoDup (map fst (k_blobs kc)) -> assoc k (k_blobs kc) = Some b ->
+  s_size (drop_blob k kc) + b_size b = s_size kc.
+Proof. intros Hn H. unfold s_size. rewrite (drop_blob_blobs _ _ _ H). now apply sum_sizes_remove. Qed.
+
+Lemma inv_drop kc size q l clk k b :
+  Inv (mkc kc size q) (mks kc l clk) -> assoc k (k_blobs kc) = Some b ->
+  Inv (mkc (drop_blob k kc) (release size (b_size b)) (removeN k q)) (mks (drop_blob k kc) l clk).
+Proof.
+  intros [Hc Hk Hz Hcap H64 [Hn Hm Hso Ho]] Hb. cbn in *.
+  pose proof (s_size_drop _ _ _ Hk Hb) as Hsz.
+  constructor; cbn.
+  - reflexivity.
+  - rewrite (drop_blob_blobs _ _ _ Hb), map_fst_remove. now apply NoDup_removeN.
+  - unfold release. destruct (N.ltb_spec size (b_size b)); lia.
+  - rewrite drop_blob_cap. lia.
+  - now rewrite drop_blob_cap.
+  - constructor; cbn.
+    + now apply NoDup_removeN.
+    + intros k'. rewrite In_removeN, (evictableb_drop _ _ _ _ Hb), Hm.
+      destruct (N.eqb_spec k' k); intuition congruence.
+    + now apply sorted_filter.
+    + intros k' Hk'. apply In_removeN in Hk'. now apply Ho.
+Qed.
+
+(* ---------------------------------------------------------------- a use of blob k: stamp := clock, move to the back *)
+Lemma last_of_touch_eq kc l clk k : last_of (mks kc ((k, clk) :: l) clk) k = clk.
+Proof. unfold last_of. cbn. now rewrite N.eqb_refl. Qed.
+Lemma last_of_touch_neq kc kc' l clk clk' k k' : k' <> k -> last_of (mks kc ((k, clk) :: l) clk') k' = last_of (mks kc' l clk') k'.
+Proof. intros H. unfold last_of. cbn. destruct (N.eqb_spec k k'); [congruence|auto]. Qed.
+
+Lemma inv_touch kc size q l clk k :
+  Inv (mkc kc size q) (mks kc l clk) ->
+  Inv (mkc kc size (c_touch k q)) (mks kc ((k, clk) :: l) (N.succ clk)).
+Proof.
+  intros [Hc Hk Hz Hcap H64 [Hn Hm Hso Ho]]. cbn in *.
+  constructor; cbn; auto.
+  unfold c_touch. destruct (memN k q) eqn:Em.
+  - apply memN_In in Em. constructor; cbn.
+    + apply NoDup_app_last; [now apply NoDup_removeN|]. rewrite In_removeN. tauto.
+    + intros k'. rewrite in_app_iff, In_removeN. cbn. rewrite <- Hm.
+      destruct (N.eq_dec k' k); [subst; tauto|]. intuition congruence.
+    + apply sorted_app_last.
+      * eapply sorted_ext; [|apply sorted_filter; exact Hso].
+        intros a b Ha Hb. apply In_removeN in Ha, Hb. unfold lt_last.
+        now rewrite !(last_of_touch_neq kc kc l clk (N.succ clk)) by tauto.
+      * intros a Ha. apply In_removeN in Ha. destruct Ha as [Ha Hne]. unfold lt_last.
+        rewrite (last_of_touch_neq kc kc) by auto.
+        replace (last_of (mks kc ((k, clk) :: l) (N.succ clk)) k) with clk
+          by (unfold last_of; cbn; now rewrite N.eqb_refl).
+        apply (Ho a Ha).
+    + intros k' Hk'. apply in_app_iff in Hk'. cbn in Hk'.
+      destruct (N.eq_dec k' k) as [->|Hne].
+      * unfold last_of; cbn. rewrite N.eqb_refl. lia.
+      * rewrite (last_of_touch_neq kc kc) by auto.
+        assert (Hq : In k' q) by (destruct Hk' as [Hk'|[Hk'|[]]]; [now apply In_removeN in Hk'|congruence]).
+        specialize (Ho k' Hq). unfold last_of in *; cbn in *. lia.
+  - assert (Hnk : ~ In k q) by (rewrite <- memN_In; congruence).
+    constructor; cbn; auto.
+    + eapply sorted_ext; [|exact Hso]. intros a b Ha Hb. unfold lt_last.
+      now rewrite !(last_of_touch_neq kc kc l clk (N.succ clk)) by (intro; subst; contradiction).
+    + intros k' Hk'. rewrite (last_of_touch_neq kc kc) by (intro; subst; contradiction).
+      specialize (Ho k' Hk'). unfold last_of in *; cbn in *. lia.
+Qed.
+
+(* ---------------------------------------------------------------- changing the flags of blob k *)
+Lemma evictableb_upd k f kc k' :
+  evictableb (upd_blob k f kc) k' =
+  if k' =? k then match assoc k (k_blobs kc) with
+                  | Some b => b_complete (f b) && negb (b_banned (f b))
+                  | None => false
+                  end
+  else evictableb kc k'.
+Proof.
+  unfold evictableb. rewrite upd_blob_blobs. destruct (N.eqb_spec k' k).
+  - subst. rewrite assoc_update_eq. now destruct (assoc k (k_blobs kc)).
+  - now rewrite assoc_update_neq.
+Qed.
+
+Lemma sum_sizes_update k f bl : (forall b, b_size (f b) = b_size b) -> sum_sizes (update k f bl) = sum_sizes bl.
+Proof.
+  intros H. unfold update. induction bl as [|[k0 b0] t IH]; [reflexivity|].
+  cbn [map fst snd]. destruct (k0 =? k); rewrite !sum_sizes_cons, IH; [now rewrite H|reflexivity].
+Qed.
+
+Lemma s_size_upd k f kc : (forall b, b_size (f b) = b_size b) -> s_size (upd_blob k f kc) = s_size kc.
+Proof. intros H. unfold s_size. rewrite upd_blob_blobs. now apply sum_sizes_update. Qed.
+
+Lemma last_of_either kc kc' l l' clk clk' clk'' k k' :
+  l' = l \/ l' = (k, clk) :: l -> k' <> k -> last_of (mks kc l' clk') k' = last_of (mks kc' l clk'') k'.
+Proof.
+  intros [->| ->] Hne; [reflexivity|]. unfold last_of. cbn. destruct (N.eqb_spec k k'); [congruence|auto].
+Qed.
+
+(* blob k stops being (or stays not) evictable *)
+Lemma inv_unevict kc size q l l' clk k f b :
+  Inv (mkc kc size q) (mks kc l clk) -> assoc k (k_blobs kc) = Some b ->
+  (forall b, b_size (f b) = b_size b) ->
+  b_complete (f b) && negb (b_banned (f b)) = false ->
+  l' = l \/ l' = (k, clk) :: l ->
+  Inv (mkc (upd_blob k f kc) size (removeN k q)) (mks (upd_blob k f kc) l' (N.succ clk)).
+Proof.
+  intros [Hc Hk Hz Hcap H64 [Hn Hm Hso Ho]] Hb Hf Hev Hl. cbn in *.
+  constructor; cbn; autorewrite with core_simp; auto.
+  - now rewrite map_fst_update.
+  - now rewrite s_size_upd.
+  - now rewrite s_size_upd.
+  - constructor; cbn.
+    + now apply NoDup_removeN.
+    + intros k'. rewrite In_removeN, evictableb_upd, Hb, Hev, Hm.
+      destruct (N.eqb_spec k' k); intuition congruence.
+    + eapply sorted_ext; [|apply sorted_filter; exact Hso].
+      intros a b0 Ha Hb0. apply In_removeN in Ha, Hb0. unfold lt_last.
+      now rewrite !(last_of_either _ kc l l' clk (N.succ clk) clk k) by tauto.
+    + intros k' Hk'. apply In_removeN in Hk'. destruct Hk' as [Hq Hne].
+      rewrite (last_of_either _ kc l l' clk (N.succ clk) clk k) by tauto. specialize (Ho k' Hq). lia.
+Qed.
+
+(* blob k becomes evictable: it is the most recently used one *)
+Lemma inv_enqueue kc size q l clk k f b :
+  Inv (mkc kc size q) (mks kc l clk) -> assoc k (k_blobs kc) = Some b ->
+  (forall b, b_size (f b) = b_size b) ->
+  evictableb kc k = false ->
+  b_complete (f b) && negb (b_banned (f b)) = true ->
+  Inv (mkc (upd_blob k f kc) size (q ++ [k])) (mks (upd_blob k f kc) ((k, clk) :: l) (N.succ clk)).
+Proof.
+  intros [Hc Hk Hz Hcap H64 [Hn Hm Hso Ho]] Hb Hf Hev Hev'. cbn in *.
+  assert (Hnk : ~ In k q) by (rewrite Hm; congruence).
+  constructor; cbn; autorewrite with core_simp; auto.
+  - now rewrite map_fst_update.
+  - now rewrite s_size_upd.
+  - now rewrite s_size_upd.
+  - constructor; cbn.
+    + now apply NoDup_app_last.
+    + intros k'. rewrite in_app_iff, evictableb_upd, Hb, Hev', Hm. cbn.
+      destruct (N.eqb_spec k' k); [subst; tauto|]. intuition congruence.
+    + apply sorted_app_last.
+      * eapply sorted_ext; [|exact Hso]. intros a b0 Ha Hb0. unfold lt_last.
+        now rewrite !(last_of_touch_neq _ kc l clk (N.succ clk)) by (intro; subst; contradiction).
+      * intros a Ha. unfold lt_last. rewrite (last_of_touch_neq _ kc) by (intro; subst; contradiction).
+        replace (last_of (mks (upd_blob k f kc) ((k, clk) :: l) (N.succ clk)) k) with clk
+          by (unfold last_of; cbn; now rewrite N.eqb_refl).
+        apply (Ho a Ha).
+    + intros k' Hk'. apply in_app_iff in Hk'. cbn in Hk'.
+      destruct (N.eq_dec k' k) as [->|Hne].
+      * unfold last_of; cbn. rewrite N.eqb_refl. lia.
+      * rewrite (last_of_touch_neq _ kc) by auto.
+        assert (Hq : In k' q) by (destruct Hk' as [Hk'|[Hk'|[]]]; [auto|congruence]).
+        specialize (Ho k' Hq). unfold last_of in *; cbn in *. lia.
+Qed.
+
+(* ---------------------------------------------------------------- admitting a new blob *)
+Lemma evictableb_add k sz d kc k' : assoc k (k_blobs kc) = None -> evictableb (add_blob k sz d kc) k' = evictableb kc k'.
+Proof.
+  intros Hn. unfold evictableb. rewrite add_blob_blobs, assoc_app.
+  destruct (assoc k' (k_blobs kc)) eqn:E; auto. cbn. destruct (k =? k'); auto.
+Qed.
+
+Lemma add64_small a b : a + b < two64 -> add64 a b = a + b.
+Proof. intros H. unfold add64. now apply N.mod_small. Qed.
+
+Lemma inv_add kc size q l clk k sz d :
+  Inv (mkc kc size q) (mks kc l clk) -> assoc k (k_blobs kc) = None -> size + sz <= k_cap kc ->
+  Inv (mkc (add_blob k sz d kc) (add64 size sz) q) (mks (add_blob k sz d kc) ((k, clk) :: l) (N.succ clk)).
+Proof.
+  intros [Hc Hk Hz Hcap H64 [Hn Hm Hso Ho]] Hb Hfit. cbn in *.
+  assert (Hnk : ~ In k q).
+  { rewrite Hm. unfold evictableb. now rewrite Hb. }
+  assert (Hs : s_size (add_blob k sz d kc) = s_size kc + sz).
+  { unfold s_size. rewrite add_blob_blobs, sum_sizes_app, sum_sizes_cons. cbn. unfold sum_sizes at 2. cbn. lia. }
+  constructor; cbn; autorewrite with core_simp; auto.
+  - rewrite map_app. cbn. apply NoDup_app_last; auto. now apply assoc_None_notin.
+  - rewrite Hs, add64_small; lia.
+  - rewrite Hs. lia.
+  - constructor; cbn; auto.
+    + intros k'. now rewrite evictableb_add, Hm.
+    + eapply sorted_ext; [|exact Hso]. intros a b0 Ha Hb0. unfold lt_last.
+      now rewrite !(last_of_touch_neq _ kc l clk (N.succ clk)) by (intro; subst; contradiction).
+    + intros k' Hk'. rewrite (last_of_touch_neq _ kc) by (intro; subst; contradiction).
+      specialize (Ho k' Hk'). unfold last_of in *; cbn in *. lia.
+Qed.
+
+(* ---------------------------------------------------------------- the admission test and the eviction loop *)
+Lemma c_fits_fixed cap size space : c_fits true cap size space = (size + space <=? cap).
+Proof.
+  unfold c_fits. destruct (N.leb_spec space cap); cbn.
+  - destruct (N.leb_spec size (cap - space)); destruct (N.leb_spec (size + space) cap); auto; lia.
+  - destruct (N.leb_spec (size + space) cap); auto; lia.
+Qed.
+
+Ltac fin_evict :=
+  split; [reflexivity || assumption|split; [reflexivity || assumption|split; [assumption|
+  split; [reflexivity || assumption|split; [try assumption; try discriminate; intros; lia|try assumption; try discriminate; auto]]]]].
+
+Lemma evict_agree space l clk : forall q kc size,
+  Inv (mkc kc size q) (mks kc l clk) ->
+  exists kc1 size1 q1 ok,
+    c_evict true q kc size space = (kc1, size1, q1, ok) /\
+    s_evict q kc space = (kc1, ok) /\
+    Inv (mkc kc1 size1 q1) (mks kc1 l clk) /\
+    k_cap kc1 = k_cap kc /\
+    (ok = true -> size1 + space <= k_cap kc) /\
+    (ok = false -> q1 = []).
+Proof.
+  induction q as [|k q' IH]; intros kc size HI; pose proof HI as [Hc Hk Hz Hcap H64 Hq]; cbn in Hc, Hk, Hz, Hcap, H64, Hq; subst size.
+  - cbn [c_evict s_evict]. rewrite c_fits_fixed. destruct (N.leb_spec (s_size kc + space) (k_cap kc)).
+    + exists kc, (s_size kc), [], true. fin_evict.
+    + exists kc, (s_size kc), [], false. fin_evict.
+  - cbn [c_evict s_evict]. rewrite c_fits_fixed. destruct (N.leb_spec (s_size kc + space) (k_cap kc)).
+    + exists kc, (s_size kc), (k :: q'), true. fin_evict.
+    + assert (He : evictableb kc k = true) by (apply (q_mem _ _ Hq); now left).
+      unfold evictableb in He. destruct (assoc k (k_blobs kc)) as [b|] eqn:Eb; [|discriminate].
+      pose proof (inv_drop _ _ _ _ _ _ _ HI Eb) as HI'.
+      rewrite removeN_head in HI'.
+      2:{ pose proof (q_nodup _ _ Hq) as Hnd. now inversion Hnd. }
+      destruct (IH _ _ HI') as (kc1 & size1 & q1 & ok & E1 & E2 & HI1 & Hc1 & Hok & Hno).
+      exists kc1, size1, q1, ok. rewrite drop_blob_cap in *. fin_evict.
+Qed.
+
+(* the keys evicted by the loop are a prefix of the queue: what is left of the blob map *)
+Lemma s_evict_cap order : forall kc space, k_cap (fst (s_evict order kc space)) = k_cap kc.
+Proof.
+  induction order as [|k t IH]; intros kc space; cbn.
+  - now destruct (s_size kc + space <=? k_cap kc).
+  - destruct (s_size kc + space <=? k_cap kc); auto. now rewrite IH, drop_blob_cap.
+Qed.
+
+(* ---------------------------------------------------------------- Clean's deletion loops *)
+Lemma clean_agree target l clk : forall keys kc size q,
+  Inv (mkc kc size q) (mks kc l clk) ->
+  let c' := c_clean_loop (mkc kc size q) target keys in
+  c_core c' = s_clean_loop kc target keys /\ Inv c' (mks (c_core c') l clk) /\ k_cap (c_core c') = k_cap kc.
+Proof.
+  induction keys as [|k t IH]; intros kc size q HI; cbn [c_clean_loop s_clean_loop].
+  - cbn. auto.
+  - pose proof (inv_size _ _ HI) as Hz. cbn in Hz. subst size. cbn [c_size c_core].
+    destruct (s_size kc <=? target).
+    + cbn. auto.
+    + destruct (assoc k (k_blobs kc)) as [b|] eqn:Eb.
+      * pose proof (inv_drop _ _ _ _ _ _ _ HI Eb) as HI'. unfold c_delete. cbn [c_size c_core c_queue].
+        destruct (IH _ _ _ HI') as (E1 & E2 & E3). rewrite drop_blob_cap in E3. auto.
+      * rewrite (drop_blob_absent _ _ Eb). apply IH. exact HI.
+Qed.
+
+(* ================================================================ step-wise refinement *)
+Lemma lookup_inl kc k sc b : lookup kc k sc = inl b -> assoc k (k_blobs kc) = Some b /\ out_of_scope b sc = false.
+Proof.
+  unfold lookup. destruct (assoc k (k_blobs kc)) as [b0|]; [|discriminate].
+  destruct (out_of_scope b0 sc) eqn:E; [discriminate|]. intros H. inversion H. subst. auto.
+Qed.
+
+Lemma same_index_open_write_at kc b off data : same_index kc (open_write_at kc b off data).
+Proof.
+  unfold open_write_at. destruct (cell_of kc (b_cell b)); [|apply same_index_refl].
+  destruct data; [apply same_index_refl|apply same_index_set_cell].
+Qed.
+
+Ltac plain_crush :=
+  repeat match goal with
+  | H : Some _ = Some _ |- _ => inversion H; subst; clear H
+  | H : Some _ = None |- _ => discriminate H
+  | H : None = Some _ |- _ => discriminate H
+  | H : (_, _) = (_, _) |- _ => inversion H; subst; clear H
+  | H : context [match ?x with _ => _ end] |- _ => destruct x eqn:?
+  end.
+
+Lemma plain_same_index bk kc o kc' r : plain_step bk kc o = Some (kc', r) -> same_index kc kc'.
+Proof.
+  intros H. unfold plain_step in H.
+  destruct o; plain_crush;
+    try apply same_index_refl;
+    try (apply same_index_upd_blob; intros; apply triple_set_mds);
+    try apply same_index_set_cell;
+    try apply same_index_set_off;
+    try (eapply same_index_trans; [apply same_index_set_cell|apply same_index_set_off]).
+Qed.
+
+Lemma evict_keeps_absent order : forall kc space k,
+  assoc k (k_blobs kc) = None -> assoc k (k_blobs (fst (s_evict order kc space))) = None.
+Proof.
+  induction order as [|k0 t IH]; intros kc space k Hk; cbn [s_evict].
+  - now destruct (s_size kc + space <=? k_cap kc).
+  - destruct (s_size kc + space <=? k_cap kc); auto. apply IH.
+    destruct (assoc k0 (k_blobs kc)) as [b0|] eqn:E0.
+    + rewrite (drop_blob_blobs _ _ _ E0). destruct (N.eq_dec k k0) as [->|Hne].
+      * apply assoc_remove_eq.
+      * now rewrite assoc_remove_neq.
+    + now rewrite (drop_blob_absent _ _ E0).
+Qed.
+
+Lemma create_refines bk kc size q l clk k sz data :
+  Inv (mkc kc size q) (mks kc l clk) ->
+  snd (c_create bk true (mkc kc size q) k sz data) = snd (s_create bk (mks kc l clk) k sz data) /\
+  Inv (fst (c_create bk true (mkc kc size q) k sz data)) (fst (s_create bk (mks kc l clk) k sz data)).
+Proof.
+  intros HI. unfold c_create, s_create. cbn [c_core s_core c_size c_queue s_last s_clock].
+  destruct (create_supported bk data); cbn [negb]; [|split; [reflexivity|now apply inv_tick]].
+  destruct (assoc k (k_blobs kc)) eqn:Ek; [split; [reflexivity|now apply inv_tick]|].
+  rewrite <- (inv_queue_eq _ _ HI). cbn [c_queue].
+  destruct (evict_agree sz l clk q kc size HI) as (kc1 & size1 & q1 & ok & E1 & E2 & HI1 & Hc1 & Hok & Hno).
+  rewrite E1, E2.
+  destruct ok.
+  - assert (Ek1 : assoc k (k_blobs kc1) = None).
+    { pose proof (evict_keeps_absent q kc sz k Ek) as H. now rewrite E2 in H. }
+    specialize (Hok eq_refl). rewrite <- Hc1 in Hok.
+    destruct data as [d|]; cbn [fst snd].
+    + split; [reflexivity|]. unfold touch. cbn [s_last s_clock]. now apply inv_add.
+    + split; [reflexivity|]. unfold touch. cbn [s_last s_clock].
+      pose proof (inv_add _ _ _ _ _ k sz [] HI1 Ek1 Hok) as HI2.
+      eapply inv_frame in HI2; [exact HI2|]. apply same_index_add_handle.
+  - split; [reflexivity|]. now apply inv_tick.
+Qed.
+
+Lemma removeN_not_evictable kc l clk q k :
+  queue_ok (mks kc l clk) q -> evictableb kc k = false -> removeN k q = q.
+Proof. intros Hq He. apply removeN_notin. rewrite (q_mem _ _ Hq). cbn. congruence. Qed.
+
+Theorem step_refines bk c s o :
+  Inv c s ->
+  snd (cstep bk true c o) = snd (sstep bk s o) /\ Inv (fst (cstep bk true c o)) (fst (sstep bk s o)).
+Proof.
+  intros HI. destruct (inv_canon _ _ HI) as [Ec Es].
+  destruct c as [kc size q], s as [kc' l clk]. cbn in Ec, Es. inversion Ec; subst kc'. clear Ec Es.
+  unfold cstep, sstep. cbn [c_core s_core c_size c_queue s_last s_clock].
+  destruct (plain_step bk kc o) as [[kc1 r]|] eqn:P.
+  { cbn [fst snd]. split; [reflexivity|]. apply inv_tick. eapply inv_frame; [exact HI|]. eapply plain_same_index; eauto. }
+  pose proof (inv_queue _ _ HI) as HQ. cbn in HQ.
+  destruct o; cbn in P; try discriminate P; try (destruct bk; discriminate P); clear P.
+  - (* Create *) now apply create_refines.
+  - (* CreateW *) now apply create_refines.
+  - (* Open *)
+    destruct bk; [split; [reflexivity|now apply inv_tick]|].
+    destruct (lookup kc k sc) as [b|e] eqn:L; [|split; [reflexivity|now apply inv_tick]].
+    cbn [fst snd]. split; [reflexivity|]. unfold touch. cbn [s_last s_clock].
+    pose proof (inv_touch _ _ _ _ _ k HI) as HI2.
+    eapply inv_frame in HI2; [exact HI2|]. apply same_index_add_handle.
+  - (* OpenRead *)
+    destruct (lookup kc k sc) as [b|e] eqn:L; [|split; [reflexivity|now apply inv_tick]].
+    cbn [fst snd]. split; [reflexivity|]. now apply inv_touch.
+  - (* OpenWriteAt *)
+    destruct (lookup kc k sc) as [b|e] eqn:L; [|split; [reflexivity|now apply inv_tick]].
+    cbn [fst snd]. split; [reflexivity|]. unfold touch. cbn [s_last s_clock].
+    pose proof (inv_touch _ _ _ _ _ k HI) as HI2.
+    eapply inv_frame in HI2; [exact HI2|]. apply same_index_open_write_at.
+  - (* MarkComplete *)
+    destruct (assoc k (k_blobs kc)) as [b|] eqn:Eb; [|split; [reflexivity|now apply inv_tick]].
+    destruct (b_complete b) eqn:Ecm; [split; [reflexivity|now apply inv_tick]|].
+    assert (Hne : evictableb kc k = false) by (unfold evictableb; now rewrite Eb, Ecm).
+    cbn [fst snd]. split; [reflexivity|]. unfold touch. cbn [s_last s_clock].
+    destruct (b_banned b) eqn:Ebn.
+    + rewrite <- (removeN_not_evictable _ _ _ _ _ HQ Hne) at 1.
+      eapply inv_unevict; eauto. cbn. now rewrite Ebn.
+    + eapply inv_enqueue; eauto. cbn. now rewrite Ebn.
+  - (* Delete *)
+    destruct (lookup kc k sc) as [b|e] eqn:L; [|split; [reflexivity|now apply inv_tick]].
+    apply lookup_inl in L. destruct L as [Eb _].
+    cbn [fst snd]. split; [reflexivity|]. apply inv_tick. unfold c_delete. cbn [c_core c_size c_queue].
+    now apply inv_drop.
+  - (* Ban *)
+    destruct (lookup kc k sc) as [b|e] eqn:L; [|split; [reflexivity|now apply inv_tick]].
+    apply lookup_inl in L. destruct L as [Eb _].
+    destruct (b_banned b) eqn:Ebn; [split; [reflexivity|now apply inv_tick]|].
+    cbn [fst snd]. split; [reflexivity|].
+    destruct (b_complete b) eqn:Ecm.
+    + eapply inv_unevict; eauto. cbn. now rewrite andb_false_r.
+    + assert (Hne : evictableb kc k = false) by (unfold evictableb; now rewrite Eb, Ecm).
+      rewrite <- (removeN_not_evictable _ _ _ _ _ HQ Hne) at 1.
+      eapply inv_unevict; eauto. cbn. now rewrite andb_false_r.
+  - (* Unban *)
+    destruct (lookup kc k sc) as [b|e] eqn:L; [|split; [reflexivity|now apply inv_tick]].
+    apply lookup_inl in L. destruct L as [Eb _].
+    destruct (b_banned b) eqn:Ebn; cbn [negb]; [|split; [reflexivity|now apply inv_tick]].
+    assert (Hne : evictableb kc k = false) by (unfold evictableb; rewrite Eb, Ebn; now rewrite andb_false_r).
+    cbn [fst snd]. split; [reflexivity|]. unfold touch. cbn [s_last s_clock].
+    destruct (b_complete b) eqn:Ecm.
+    + eapply inv_enqueue; eauto. cbn. now rewrite Ecm.
+    + rewrite <- (removeN_not_evictable _ _ _ _ _ HQ Hne) at 1.
+      eapply inv_unevict; eauto. cbn. now rewrite Ecm.
+  - (* Clean *)
+    destruct bk; [|split; [reflexivity|now apply inv_tick]].
+    pose proof (inv_size _ _ HI) as Hz. cbn in Hz.
+    destruct ((pct <? 0) || (100 <=? pct))%Z.
+    { cbn [fst snd]. rewrite Hz. split; [reflexivity|now apply inv_tick]. }
+    rewrite <- (inv_queue_eq _ _ HI). cbn [c_queue].
+    destruct (evict_agree (k_cap kc - clean_target (k_cap kc) pct) l clk q kc size HI)
+      as (kc1 & size1 & q1 & ok & E1 & E2 & HI1 & Hc1 & Hok & Hno).
+    rewrite E1, E2. pose proof (inv_size _ _ HI1) as Hz1. cbn in Hz1.
+    destruct ok.
+    + cbn [fst snd]. rewrite Hz1. split; [reflexivity|now apply inv_tick].
+    + destruct (order_legal kc1 order); [|split; [reflexivity|now apply inv_tick]].
+      destruct (clean_agree (clean_target (k_cap kc) pct) l clk (clean_keys kc1 respect order) kc1 size1 q1 HI1) as (F1 & F2 & F3).
+      cbn [fst snd]. rewrite <- F1.
+      pose proof (inv_size _ _ F2) as Hz2. cbn in Hz2. rewrite Hz2.
+      split; [reflexivity|]. apply inv_tick.
+      destruct (inv_canon _ _ F2) as [G1 G2]. cbn in G1. rewrite G1 at 1. rewrite <- G1. exact F2.
 Qed.
